@@ -275,6 +275,14 @@ pub struct Config {
     /// full (those operations abort the process on allocation failure: known finding)
     #[serde(default)]
     pub unguarded: bool,
+    /// DDDMP: inject faults on the writer/reader seams (F8)
+    #[serde(default)]
+    pub io_faults: bool,
+    /// DDDMP: stored-byte faults (every truncation point, seeded mutations)
+    #[serde(default)]
+    pub io_corrupt: bool,
+    #[serde(default)]
+    pub io_seed: u64,
 }
 
 #[derive(Clone, Debug, PartialEq, Eq, Serialize, Deserialize)]
